@@ -187,7 +187,8 @@ Section Construct.
                         | _ => Raise EDomain
                         end;
             do fac <- sub b;
-            Ok (PDefDict id (s "collections") (s "defaultdict") fac items)
+            do (m, c) <- gt h;                      (* C04-F2 repaired: gettype(module, class)(None, main) *)
+            Ok (PDefDict id m c fac items)
         | _ => Raise EOther
         end
     | KList | KSet =>
@@ -198,7 +199,8 @@ Section Construct.
         do (m, c) <- gt h;
         do items <- mapM sub (strip_empty LEmptyList subs);
         if mem (qual m c) (c_namedtuples C) then Ok (PSeq QTuple id m c true items)
-        else Ok (PSeq QTuple id (s "builtins") (s "tuple") false items)
+        else if pstr_eqb (qual m c) (s "builtins.tuple") then Ok (PSeq QTuple id (s "builtins") (s "tuple") false items)
+        else Ok (PSeq QTuple id m c false items)      (* C04-F3 repaired: any other tuple subclass is built as cls(items) *)
     | KBytes => do b <- read_blob h; Ok (PBytes id false (s "builtins") (s "bytes") (snd b))
     | KBytearray => do b <- read_blob h; Ok (PBytes id true (s "builtins") (s "bytearray") (snd b))
     | KSlice =>
